@@ -374,6 +374,9 @@ def run(ctx) -> None:
     ctx.rule(rule_template_yaml, db)
     from . import c03
     ctx.rule(c03.rule_rotkh_value, "C12.rotkh-value")
+    # the configuration writer/reader pair of every register-backed area (shared with C11): what get_config writes loads back
+    from . import c11
+    ctx.borrow(c11.rule_config, "C11.config-keys", "C12.config-keys")
     ctx.chk.assumptions = ["hardware layouts are as the specs state (3 IFR spec files with overlapping registers are known findings)", "register arithmetic itself is decided in C11",
                            "not decided: schema validity of generated templates, parse(export) identity at value level, verifier acceptance"]
 
